@@ -327,6 +327,37 @@ theorem token_compat (name : Nat → Nat) (isList : Nat → Bool)
       | true => rw [he] at h; rw [hl, h] at hab; unfold lt4 at hab; omega
   · intro a b c; rw [he, he, he]; intro h1 h2; exact h1.trans h2
 
+/-- the contract survives reading every key through a map (here: `GetUnderlying` on the
+placeholder's type) -/
+theorem compat_pullback {K K' : Type} {eq less : K → K → Bool} (hc : Compat eq less) (f : K' → K) :
+    Compat (fun a b => eq (f a) (f b)) (fun a b => less (f a) (f b)) :=
+  ⟨fun a => hc.irrefl (f a), fun a b c => hc.trans (f a) (f b) (f c), fun a b => hc.eq_iff (f a) (f b),
+   fun a b c => hc.eq_trans (f a) (f b) (f c)⟩
+
+/-- **Type aliases are transparent.**  Whatever aliases are declared (`under` = `GetUnderlying`
+on type identities), the predicates on possibly-aliased placeholder types satisfy the contract
+under the same condition on the *underlying* types: an alias introduces no new key, so
+`Zeige <x>` over `Absatz = Text` is the alias `Zeige <x>` over `Text`. -/
+theorem token_compat_aliases (under : Nat → Nat) (name : Nat → Nat) (isList : Nat → Bool)
+    (hinj : ∀ i j, isList i = isList j → name i = name j → i = j) :
+    Compat (tokEqU under) (tokLessU under name isList) :=
+  compat_pullback (token_compat name isList hinj) (TokKey.resolve under)
+
+/-- an alias of a type and the type itself are the same key -/
+theorem alias_same_key (under : Nat → Nat) (r : Bool) (i j : Nat) (h : under i = under j) :
+    tokEqU under (.param r i) (.param r j) = true := by
+  simp [tokEqU, TokKey.resolve, tokEq, h]
+
+/-- non-vacuity and the duplicate through an alias: with `4 ↦ 3` (an alias of type 3, printed under
+another name) the pattern over type 4 finds the alias stored over type 3, among siblings 1, 2, 3 -/
+example :
+    let under : Nat → Nat := fun i => if i = 4 then 3 else i
+    let eq := tokEqU under
+    let less := tokLessU under (fun i => i) (fun _ => false)
+    let pat (i : Nat) : List TokKey := [.lit .identifier 7, .param false i]
+    let store := runInserts eq less [(pat 1, 1), (pat 2, 2), (pat 3, 3)]
+    aliasExists eq less (pat 4) store = some 3 := by decide +kernel
+
 /-- **Characterisation, direction 2.**  Two distinct underlying types with equal list-ness
 and equal printed name (e.g. same-named Kombinationen of different modules) break the contract:
 as placeholders they are neither `eq` nor ordered. -/
